@@ -30,7 +30,8 @@ Count(s, x) == Cardinality({ i \in DOMAIN s : s[i] = x })
 PMonClauses(m, ev) ==
   IF ev.e = "servers" THEN << >> ELSE
   LET want == { <<PlaceOf(ev, it[1]), it[2]>> : it \in SeqSet(ev.items) }
-  IN << <<"C12-routing-answer-is-a-function-of-the-routing-key",
+  IN << <<"C12-operations-on-healthy-servers-complete", "raised" \in DOMAIN ev => ev.raised = "none">>,
+        <<"C12-routing-answer-is-a-function-of-the-routing-key",
               \A i, j \in DOMAIN ev.placed : ev.placed[i][1] = ev.placed[j][1] => ev.placed[i][2] = ev.placed[j][2]>>,
         <<"C12-single-and-multi-key-operations-agree-on-placement",
               \A i \in DOMAIN ev.placed : ev.placed[i][1] \in DOMAIN m.place => m.place[ev.placed[i][1]] = ev.placed[i][2]>>,
